@@ -47,6 +47,9 @@ def search(method):
                 elif not (a._is_rooted_trees is b._is_rooted_trees or (len(b) == 0 and b._is_rooted_trees is None)
                           or (len(a) == 0 and a._is_rooted_trees is None)):
                     continue
+                sa, sb = a._split_distribution, b._split_distribution
+                ca, cb = dict(sa.split_counts), dict(sb.split_counts)
+                ta_, tb_ = (sa.total_trees_counted, sa.sum_of_tree_weights), (sb.total_trees_counted, sb.sum_of_tree_weights)
                 try:
                     if method == "update":
                         a.update(b)
@@ -61,6 +64,16 @@ def search(method):
                     return desc, "parallel lists have lengths %s after %s" % (ls, method)
                 if len(a) != na + nb:
                     return desc, "len is %d, expected %d" % (len(a), na + nb)
+                # the summary is the componentwise sum of the two summaries
+                now = dict(a._split_distribution.split_counts)
+                for k in set(ca) | set(cb) | set(now):
+                    if now.get(k, 0.0) != ca.get(k, 0.0) + cb.get(k, 0.0):
+                        return desc, "count of split %s is %r after %s, the two collections held %r + %r" % (
+                            bin(k), now.get(k, 0.0), method, ca.get(k, 0.0), cb.get(k, 0.0))
+                if a._split_distribution.total_trees_counted != ta_[0] + tb_[0]:
+                    return desc, "total_trees_counted is %r after %s, expected %r" % (a._split_distribution.total_trees_counted, method, ta_[0] + tb_[0])
+                if a._split_distribution.sum_of_tree_weights != ta_[1] + tb_[1]:
+                    return desc, "sum_of_tree_weights is %r after %s, expected %r" % (a._split_distribution.sum_of_tree_weights, method, ta_[1] + tb_[1])
                 try:
                     if len(a):
                         a.calculate_log_product_of_split_supports()
